@@ -157,29 +157,34 @@ pub fn vx_clone_entry(e: &Result<VxPath, String>) -> (r: Result<VxPath, String>)
     ensures match (r, *e) { (Ok(a), Ok(b)) => a.s@ == b.s@, (Err(_), Err(_)) => true, _ => false }
 { unimplemented!() }
 // the hidden-file rule of the property statement
-pub open spec fn glob_keep(p: Seq<char>, show_hidden: bool) -> bool {
+// below_hidden_dir(pattern, path) (shell.rs, str::split / glob::Pattern: outside Verus): some directory on the way to the path starts with a
+// `.` that the pattern does not spell out. Uninterpreted here; exercised by the bounded hidden-directory populations.
+pub uninterp spec fn spec_below_hidden(pat: Seq<char>, p: Seq<char>) -> bool;
+#[verifier::external_body]
+pub fn below_hidden_dir(pattern: &str, path: &str) -> (r: bool) ensures r == spec_below_hidden(pattern@, path@) { unimplemented!() }
+pub open spec fn glob_keep(p: Seq<char>, show_hidden: bool, pat: Seq<char>) -> bool {
     let bn = spec_basename(p);
-    bn != ".."@ && bn != "."@ && !(bn.len() > 0 && bn[0] == '.' && !show_hidden)
+    bn != ".."@ && bn != "."@ && !(bn.len() > 0 && bn[0] == '.' && !show_hidden) && !spec_below_hidden(pat, p)
 }
 pub open spec fn entry_path(e: Result<VxPath, String>) -> Seq<char> { match e { Ok(p) => p.s@, Err(_) => Seq::empty() } }
-pub open spec fn visible_at(v: Seq<Result<VxPath, String>>, e: int, sh: bool) -> bool { v[e].is_ok() && glob_keep(entry_path(v[e]), sh) }
-pub open spec fn from_entries(w: Seq<char>, v: Seq<Result<VxPath, String>>, upto: int, sh: bool) -> bool {
-    exists|e: int| 0 <= e < upto && visible_at(v, e, sh) && #[trigger] entry_path(v[e]) == w
+pub open spec fn visible_at(v: Seq<Result<VxPath, String>>, e: int, sh: bool, pat: Seq<char>) -> bool { v[e].is_ok() && glob_keep(entry_path(v[e]), sh, pat) }
+pub open spec fn from_entries(w: Seq<char>, v: Seq<Result<VxPath, String>>, upto: int, sh: bool, pat: Seq<char>) -> bool {
+    exists|e: int| 0 <= e < upto && visible_at(v, e, sh, pat) && #[trigger] entry_path(v[e]) == w
 }
 pub open spec fn has_word(words: Seq<String>, w: Seq<char>) -> bool { exists|q: int| 0 <= q < words.len() && (#[trigger] words[q])@ == w }
-pub proof fn lemma_glob_step(words: Seq<String>, v: Seq<Result<VxPath, String>>, n: int, sh: bool)
+pub proof fn lemma_glob_step(words: Seq<String>, v: Seq<Result<VxPath, String>>, n: int, sh: bool, pat: Seq<char>)
     requires 0 <= n < v.len(),
     ensures
-        forall|w: Seq<char>| from_entries(w, v, n, sh) ==> #[trigger] from_entries(w, v, n + 1, sh),
-        visible_at(v, n, sh) ==> from_entries(entry_path(v[n]), v, n + 1, sh),
+        forall|w: Seq<char>| from_entries(w, v, n, sh, pat) ==> #[trigger] from_entries(w, v, n + 1, sh, pat),
+        visible_at(v, n, sh, pat) ==> from_entries(entry_path(v[n]), v, n + 1, sh, pat),
         forall|x: String, w: Seq<char>| has_word(words, w) ==> #[trigger] has_word(words.push(x), w),
         forall|x: String| #[trigger] has_word(words.push(x), x@),
 {
-    assert forall|w: Seq<char>| from_entries(w, v, n, sh) implies #[trigger] from_entries(w, v, n + 1, sh) by {
-        let e = choose|e: int| 0 <= e < n && visible_at(v, e, sh) && #[trigger] entry_path(v[e]) == w;
-        assert(0 <= e < n + 1 && visible_at(v, e, sh) && entry_path(v[e]) == w);
+    assert forall|w: Seq<char>| from_entries(w, v, n, sh, pat) implies #[trigger] from_entries(w, v, n + 1, sh, pat) by {
+        let e = choose|e: int| 0 <= e < n && visible_at(v, e, sh, pat) && #[trigger] entry_path(v[e]) == w;
+        assert(0 <= e < n + 1 && visible_at(v, e, sh, pat) && entry_path(v[e]) == w);
     }
-    if visible_at(v, n, sh) { assert(0 <= n < n + 1 && visible_at(v, n, sh) && entry_path(v[n]) == entry_path(v[n])); }
+    if visible_at(v, n, sh, pat) { assert(0 <= n < n + 1 && visible_at(v, n, sh, pat) && entry_path(v[n]) == entry_path(v[n])); }
     assert forall|x: String, w: Seq<char>| has_word(words, w) implies #[trigger] has_word(words.push(x), w) by {
         let q = choose|q: int| 0 <= q < words.len() && (#[trigger] words[q])@ == w;
         assert(words.push(x)[q]@ == w);
@@ -337,13 +342,13 @@ expand_glob = Fn(S, 'expand_glob',
         0: Loop(invariant=first_loop_inv('glob', 'bview(buff@)[m].1.len() > 0', 'spec_needs_globbing')),
         1: Loop(invariant=[
             ('C12.inv.glob.never_vanishes', '!is_empty ==> result@.len() > 0'),
-            ('C12.inv.glob.only_visible', 'forall|q: int| 0 <= q < result@.len() ==> from_entries((#[trigger] result@[q])@, __v1@, __i1 as int, show_hidden)'),
-            ('C12.inv.glob.all_visible', 'forall|e: int| 0 <= e < __i1 && #[trigger] visible_at(__v1@, e, show_hidden) ==> has_word(result@, entry_path(__v1@[e]))'),
+            ('C12.inv.glob.only_visible', 'forall|q: int| 0 <= q < result@.len() ==> from_entries((#[trigger] result@[q])@, __v1@, __i1 as int, show_hidden, item@)'),
+            ('C12.inv.glob.all_visible', 'forall|e: int| 0 <= e < __i1 && #[trigger] visible_at(__v1@, e, show_hidden, item@) ==> has_word(result@, entry_path(__v1@[e]))'),
         ]),
         **splice_loops(0, 2, 3, items='result', g='true'),
     },
     hints={**splice_hints(2, 3, items='result', g='true'), 'loop-0-body-entry': 'lemma_bview_push(buff@); lemma_found_push(buff@);',
-           'loop-1-body-entry': 'lemma_glob_step(result@, __v1@, __i1 as int, show_hidden);'},
+           'loop-1-body-entry': 'lemma_glob_step(result@, __v1@, __i1 as int, show_hidden, item@);'},
 )
 
 # ------------------------------------------------------------------ expand_brace_range
